@@ -8,7 +8,7 @@ from collections import Counter
 
 PKG = "auth/api/iam"
 # the second file is an add-only exported helper overlaid into package storage (clock control for the in-memory store)
-HARNESS = ["auth/api/iam/zz_verif_c02_test.go", "auth/api/iam/zz_verif_c02jar_test.go", "auth/api/iam/zz_verif_c02pol_test.go", "auth/api/iam/zz_verif_c02ro_test.go", "storage/zz_verif_c02_export.go"]
+HARNESS = ["auth/api/iam/zz_verif_c02_test.go", "auth/api/iam/zz_verif_c02jar_test.go", "auth/api/iam/zz_verif_c02pol_test.go", "auth/api/iam/zz_verif_c02ro_test.go", "auth/api/iam/zz_verif_c02dpop_test.go", "storage/zz_verif_c02_export.go"]
 
 REQUIRED = [
     "s2s_token_only_if", "s2s_defect_combination_rejected", "claims_cannot_override", "claims_cannot_override_today",
@@ -23,6 +23,7 @@ REQUIRED = [
     "request_object_served_only_if", "request_object_burned_by_any_fetch", "leg_request_object_carries_its_nonce", "fact_request_object_endpoints",
     "policy_load_exact", "s2s_scope_comes_from_a_policy_file", "policy_load_error_kinds", "fact_policy_loader",
     "fact_jar_parse_shape", "fact_jar_validate_shape", "fact_params_get", "fact_authorize_dispatch", "fact_token_dispatch", "fact_oauth_names",
+    "dpop_valid_only_if", "dpop_not_valid_leaves_state", "dpop_proof_accepted_at_most_once", "fact_dpop_validate_shape", "fact_once_only_store_keys",
     "fact_verifyvp_args", "fact_audience_exact", "fact_deciding_conditions", "fact_windows", "fact_store_prefixes_distinct", "fact_introspection_fields", "fact_access_token_init", "fact_introspection_init",
 ]
 
@@ -63,6 +64,7 @@ class Oracle:
         self.nonce_used = set()
         self.codes = {}      # code name -> {"session", "t", "redeemed", "i"}
         self.legs = {}       # request object name -> the leg that announced it
+        self.jtis = {}       # jti of a proof of possession answered valid -> (op index, t)
 
     def policy(self, scope):
         for p in self.cfg.get("policy", []):
@@ -466,6 +468,39 @@ class Oracle:
         if leg is not None:
             leg["attempts"].append(i)
 
+    @staticmethod
+    def url_core(u):
+        """host (without port) + path of a URL: what a DPoP proof binds (RFC 9449: htu without query and fragment)"""
+        u = re.sub(r"^[A-Za-z][A-Za-z0-9+.-]*://", "", u)
+        u = re.split(r"[?#]", u, 1)[0]
+        host, slash, path = u.partition("/")
+        return host.split(":")[0] + slash + path
+
+    def judge_dpopval(self, i, op, line):
+        """ValidateDPoPProof: `valid` only for a well-formed proof signed by the key whose thumbprint the caller named (the
+        cnf.jkt established at issuance), for this method, this URL and this access token, and used for the first time"""
+        if line != "valid":
+            return
+        d = op["dpv"]
+        t = op["t"]
+        if d.get("broken") or not d.get("htm") or not d.get("htu") or not d.get("jti"):
+            self.bad("dpop-proof-valid-despite:unparseable-or-unsigned", f"op {i}: proof {d.get('broken') or 'without htm/htu/jti'} answered valid", [i])
+        if d["key"] % 3 != d["thumb_key"] % 3 or d.get("thumb_var"):
+            self.bad("dpop-proof-valid-despite:signed-by-another-key-than-the-bound-one",
+                     f"op {i}: proof signed by key {d['key']}, thumbprint supplied: key {d['thumb_key']} {d.get('thumb_var', '')}", [i])
+        if d["method"] != d["htm"]:
+            self.bad("dpop-proof-valid-despite:another-method", f"op {i}: proof for {d['htm']!r}, request {d['method']!r}", [i])
+        if self.url_core(d["htu"]) != self.url_core(d["url"]) or "%zz" in d["htu"] + d["url"]:
+            self.bad("dpop-proof-valid-despite:another-url", f"op {i}: proof for {d['htu']!r}, request {d['url']!r}", [i])
+        if d.get("ath_kind") or (d.get("ath_of") and d["ath_of"] != d["token"]):
+            self.bad("dpop-proof-valid-despite:not-bound-to-this-access-token",
+                     f"op {i}: ath {d.get('ath_kind') or 'of ' + d.get('ath_of', '')}, token under validation {d['token']!r}", [i])
+        prev = self.jtis.get(d["jti"])
+        if prev is not None and t - prev[1] < self.validity - 10**9:
+            self.bad("dpop-proof-accepted-twice-within-token-lifetime",
+                     f"ops {prev[0]} and {i}: jti {d['jti']!r} answered valid at t and t+{(t - prev[1]) // 10**6} ms", [prev[0], i])
+        self.jtis[d["jti"]] = (i, t)
+
     def judge_polload(self, i, op, line):
         """policy directory -> mapping: judged from the generated files only (suffix .json, not a directory)"""
         loaded = [e for e in op.get("entries") or [] if not e.get("is_dir") and e["name"].endswith(".json")] if op.get("dir") == "present" else []
@@ -516,6 +551,8 @@ class Oracle:
             self.judge_polload(i, op, line)
         elif kind == "reqobj":
             self.judge_reqobj(i, op, line)
+        elif kind == "dpopval":
+            self.judge_dpopval(i, op, line)
         elif kind == "seed":
             self.sessions[op["state"]] = {"spec": op["session"], "t": op["t"], "fulfilled": [], "nonces": {op["nonce"]: op["t"]}, "i": i}
         elif kind == "authresp":
@@ -629,7 +666,7 @@ def run(ctx):
         a, b = world_of(idx[0])
         # replay = the world's configuration + every state-changing op up to the last op involved (time advances included)
         keep = [a] + [k for k in range(a + 1, idx[-1] + 1)
-                      if k in idx or ops[k].get("op") in ("advance", "seed", "authresp", "authreq", "authz", "race", "reqobj") or (ops[k].get("op") in ("s2s", "code") and impl[k].startswith("200"))]
+                      if k in idx or ops[k].get("op") in ("advance", "seed", "authresp", "authreq", "authz", "race", "reqobj") or (ops[k].get("op") == "dpopval" and impl[k] == "valid") or (ops[k].get("op") in ("s2s", "code") and impl[k].startswith("200"))]
         replay = "\n".join(clean(ops[k]) for k in keep) + "\n"
         if ctx.violation(sig, text, re.sub(r"[^A-Za-z0-9_.-]+", "_", sig.split(":", 1)[1])[:80] + ".jsonl", replay):
             new_sigs.append(sig)
@@ -696,6 +733,10 @@ def run(ctx):
             cls = l.split(" ")[0]
             outcomes["reqobj:" + (o.get("method") or "") + ":" + cls] += 1
             distinct.add(("reqobj", o.get("method"), tuple(o.get("defects") or []), cls, o.get("wallet_nonce") is not None, o.get("wallet_issuer")))
+        elif o.get("op") == "dpopval":
+            d = o["dpv"]
+            outcomes["dpopval:" + l] += 1
+            distinct.add(("dpopval", tuple(o.get("defects") or []), l, d.get("htm"), d.get("htu"), d.get("url")))
         elif o.get("op") == "polload":
             cls = l.split(" ")[0]
             outcomes["polload:" + o.get("dir", "") + ":" + cls] += 1
